@@ -66,6 +66,10 @@ func fromGoModel(v string) *mv {
 		return &mv{k: 'a', el: []*mv{mInt(1)}}
 	case "map":
 		return &mv{k: 'm', mp: map[string]*mv{"k": mInt(2)}}
+	case "emap": // an empty Go map: a fresh empty Map on every conversion
+		return &mv{k: 'm', mp: map[string]*mv{}}
+	case "earr": // an empty Go slice: a fresh empty Array on every conversion
+		return &mv{k: 'a'}
 	}
 	panic("model: unknown value " + v)
 }
@@ -259,6 +263,9 @@ var scripts = []scriptDef{
 	// reads a name that is also a builtin function: the host's variable if one
 	// was added before Compile (it shadows the builtin), else the builtin
 	{"out := len", nil, []string{"out"}},
+	// writes a NEW key / element into a host-supplied container in place
+	{"a.n = 1", []string{"a"}, nil},
+	{"splice(a, 0, 0, 7)", []string{"a"}, nil},
 }
 
 func scriptIndex(src string) int {
@@ -348,6 +355,18 @@ func (m *model) exec(o *mobj) bool {
 			return false
 		}
 		a.el[0] = mInt(7)
+	case 6: // a.n = 1 (docs/tengo.md: maps are index-assignable by name; arrays only by int)
+		a := gval(o, "a")
+		if a.k != 'm' {
+			return false
+		}
+		a.mp["n"] = mInt(1)
+	case 7: // splice(a, 0, 0, 7): docs/builtins.md, inserts in place; non-arrays are an error
+		a := gval(o, "a")
+		if a.k != 'a' {
+			return false
+		}
+		a.el = append([]*mv{mInt(7)}, a.el...)
 	case 5: // out := len
 		if _, declared := o.g["len"]; declared {
 			o.g["out"] = gval(o, "len")
